@@ -443,8 +443,8 @@ pub fn run(ctx: &Ctx) {
     ctx.enumerate("reference-forms", &fixed, check, enc);
     ctx.enumerate("adjacent-references", &adjacent_cases(), check, enc);
     let (cases, depth) = match ctx.tier {
-        Tier::Quick => (20_000u64, 3u32),
-        Tier::Thorough => (400_000, 5),
+        Tier::Quick => (80_000u64, 3u32),
+        Tier::Thorough => (1_600_000, 5),
     };
     ctx.campaign("generated", cases, || case_strategy(depth, no_range_operator), check, enc);
 }
